@@ -136,6 +136,10 @@ def _parse_tlc(res):
     if m:
         res.generated = int(m.group(1).replace(",", ""))
         res.distinct = int(m.group(2).replace(",", ""))
+    if not m:
+        m2 = re.search(r"The number of states generated: (\d[\d,]*)", o)
+        if m2:
+            res.generated = int(m2.group(1).replace(",", ""))
     m = re.search(r"depth of the complete state graph search is (\d+)", o)
     if m:
         res.depth = int(m.group(1))
